@@ -146,6 +146,14 @@ PROPS = {
         'units': ['c01', 'c07'],
         'kani': [dict(_KANI_STATUS, obligation='C01.status.try_from.total')],
         'level': 'other',
+        'scans': [
+            {'name': 'P1.tagging_rules', 'kind': 'pinned_text', 'file': 'oal-compiler/src/inference/mod.rs', 'path': [('fn', 'tag')],
+             'why': 'the preservation relation `inhabits` (which values a tag admits) was written against these tagging rules'},
+            {'name': 'P1.literal_tags', 'kind': 'pinned_text', 'file': 'oal-compiler/src/inference/mod.rs', 'path': [('fn', 'literal_tag')],
+             'why': 'the preservation relation `inhabits` was written against these tagging rules'},
+            {'name': 'P1.dispatcher', 'kind': 'pinned_text', 'file': 'oal-compiler/src/eval.rs', 'path': [('fn', 'eval_any')],
+             'why': 'eval_any is assumed (not verified): node kinds are dispatched to the eval_* functions verified here'},
+        ],
         'obligation_prefixes': ['C01.', 'C07.unify.head_sound', 'C07.unify.occurs_before_bind', 'C07.unify.nopanic', 'C07.occurs.complete'],
         'technique': 'Verus contracts on the real cast_*, kind predicates, check_*/type_check and eval_* bodies: progress at every cast site relative to a stated (assumed) tag/value preservation relation',
         'level_text': 'Deductive proof (Verus/Z3) of PROGRESS at the cast sites, for all syntax trees and tags: (1) each real cast_* cannot panic under a stated value precondition; '
@@ -409,6 +417,28 @@ def run_scan(sc):
             if re.search(pat, text):
                 return False, 'scan %s: unexpected text /%s/ in %s' % (sc['name'], pat, sc['fn'])
         return True, 'scan %s: ok' % sc['name']
+    if sc['kind'] == 'pinned_text':
+        # the normalised token text (comments and whitespace removed) of a function must equal the committed pin:
+        # used for code an ASSUMPTION was written against (not under contract); a semantic edit makes the assumption stale
+        import hashlib
+        path = os.path.join(REPO, sc['file'])
+        src = open(path).read()
+        kind = rs.code_mask(src)
+        try:
+            it = rs.find_item(src, kind, sc['path'])
+        except rs.ScanError as e:
+            return False, 'scan %s: lost anchor %s' % (sc['name'], e)
+        text = ''.join(ch for i, ch in enumerate(src[it.sig_start:it.end]) if kind[it.sig_start + i] != 'k')
+        norm = re.sub(r'\s+', '', text)
+        pinfile = os.path.join(os.path.dirname(os.path.dirname(os.path.abspath(__file__))), 'contracts', 'pins', sc['name'] + '.txt')
+        if os.environ.get('VERIF_WRITE_PINS'):
+            os.makedirs(os.path.dirname(pinfile), exist_ok=True)
+            open(pinfile, 'w').write(norm)
+        if not os.path.exists(pinfile):
+            return False, 'scan %s: no pin file' % sc['name']
+        if open(pinfile).read() != norm:
+            return False, 'scan %s: %s changed since the assumption that depends on it was written (%s)' % (sc['name'], sc['file'], sc['why'])
+        return True, 'scan %s: ok (sha1 %s)' % (sc['name'], hashlib.sha1(norm.encode()).hexdigest()[:12])
     if sc['kind'] == 'grep_count':
         total = 0
         for rel in sc['files']:
